@@ -443,6 +443,11 @@ impl Authorizer {
                     )?,
                 };
 
+                #[cfg(biscuit_auth_verif)]
+                crate::verif::emit(format!(
+                    "{{\"ev\":\"decision\",\"what\":{},\"owner\":{},\"index\":{},\"trusted\":{:?},\"res\":{}}}",
+                    "\"check\"", usize::MAX, i, rule_trusted_origins.verif_ids(), res
+                ));
                 let now = Instant::now();
                 if now >= time_limit {
                     return Err(error::Token::RunLimit(error::RunLimit::Timeout));
@@ -502,6 +507,11 @@ impl Authorizer {
                         )?,
                     };
 
+                    #[cfg(biscuit_auth_verif)]
+                    crate::verif::emit(format!(
+                        "{{\"ev\":\"decision\",\"what\":{},\"owner\":{},\"index\":{},\"trusted\":{:?},\"res\":{}}}",
+                        "\"check\"", 0usize, j, rule_trusted_origins.verif_ids(), res
+                    ));
                     let now = Instant::now();
                     if now >= time_limit {
                         return Err(error::Token::RunLimit(error::RunLimit::Timeout));
@@ -540,6 +550,11 @@ impl Authorizer {
                     &self.symbols,
                 )?;
 
+                #[cfg(biscuit_auth_verif)]
+                crate::verif::emit(format!(
+                    "{{\"ev\":\"decision\",\"what\":{},\"owner\":{},\"index\":{},\"trusted\":{:?},\"res\":{}}}",
+                    "\"policy\"", usize::MAX, i, rule_trusted_origins.verif_ids(), res
+                ));
                 let now = Instant::now();
                 if now >= time_limit {
                     return Err(error::Token::RunLimit(error::RunLimit::Timeout));
@@ -595,6 +610,11 @@ impl Authorizer {
                             )?,
                         };
 
+                        #[cfg(biscuit_auth_verif)]
+                        crate::verif::emit(format!(
+                            "{{\"ev\":\"decision\",\"what\":{},\"owner\":{},\"index\":{},\"trusted\":{:?},\"res\":{}}}",
+                            "\"check\"", i + 1, j, rule_trusted_origins.verif_ids(), res
+                        ));
                         let now = Instant::now();
                         if now >= time_limit {
                             return Err(error::Token::RunLimit(error::RunLimit::Timeout));
